@@ -18,7 +18,7 @@ FINISH = {"level": "proof", "assumptions": [
     "engineDeadline mirrors LockManager.AddLock (lock.go 566-577); the harness computes the original deadline with the same formula (the engine's own expiry timing is C06's business)",
     "times are below 2^61 seconds; the reload uses one clock value for the file filter and for the conversion",
     "journal/replay part: the REAL restart snapshot is diffed against Slock.Aof.reload (the model of LoadAofFile's per-record filter + HandleLoad + the FROM_AOF branches of LockDB.Lock/UnLock, with the regenerated doLock / CheckLockedEqual / GetLockCommandExpriedTime kernels); every load is pinned to one real second (repeated when the wall second changed); the journal side and the property are monitors (seeded histories over 2-3 dbs through a real SLock + real Aof with real AofChannel goroutines on a virtual clock laid out so that the restart second equals the real clock; fresh SLock on a copy of the directory); its oracle is the reference replay recover (Slock.Aof.recover), whose Lean definition is diffed against the harness's Go copy on every journal (aofjournal lines) and about which the C07J algebra is proved; the refinement recover(journal) = persisted holds over the engine model is NOT proved (statement text in Properties/C07Journal.lean)",
-    "generated since the mutation scan: holds taken with Rcount-is-priority (TimeoutFlag 0x10, some waiting and granted later); the snapshot compares TimeoutFlag & 0x1010 (priority, require-ack) as well as Rcount. Not generated: require-ack holds (their journal records are acknowledged through the replication manager), updates that move a hold between the millisecond wheel and the second wheel, the 'unlimited + Expried 0xffff' update, require-ack locks, size-triggered rotation in the middle of a history (loadRewriteAofFiles reads time.Now())"]}
+    "generated since the mutation scan: holds taken with Rcount-is-priority (TimeoutFlag 0x10, some waiting and granted later); the snapshot compares TimeoutFlag & 0x1010 (priority, require-ack) as well as Rcount. Not generated: require-ack holds (their journal records are acknowledged through the replication manager), updates that move a hold between the millisecond wheel and the second wheel, the 'unlimited + Expried 0xffff' update, require-ack locks; size-triggered rotation only in the dedicated tick-free rotation cases (loadRewriteAofFiles reads time.Now())"]}
 
 
 def classify(op, impl):
